@@ -10,7 +10,9 @@
 
    Hypotheses: [wf s] is the invariant (Example c12_wf_empty: the empty vector satisfies it; rv_inv shows it is
    kept); [valid] are the preconditions of the std operations (positions within the vector, pop on non-empty);
-   arguments never alias the vector's own elements (values are passed by value in the model).
+   arguments never alias the vector's own elements (values are passed by value in the model) - on the real class an
+   aliasing argument is read after the elements were moved and the result differs from std::vector (monitored by
+   checks/c12.py, finding aliased-argument); the theorems say nothing about that case.
 
    No side condition on the element type any more: since fix 5fb90d9 prepare_for_insert returns early for
    count == 0 (regenerated as pfi_zero_cond / pfi_zero_ret; the bridge lemmas b_pfi_zero_cond / b_pfi_zero_ret and
